@@ -280,7 +280,10 @@ impl Font {
     }
     pub fn widths(&self, resolve: &impl Resolve) -> Result<Option<Widths>> {
         match self.data {
-            FontData::Type0(ref t0) => t0.descendant_fonts[0].widths(resolve),
+            FontData::Type0(ref t0) => match t0.descendant_fonts.get(0) {
+                Some(f) => f.widths(resolve),
+                None => Ok(None)
+            },
             FontData::Type1(ref info) | FontData::TrueType(ref info) => {
                 match *info {
                     TFont { first_char: Some(first), ref widths, .. } => Ok(Some(Widths {
